@@ -631,6 +631,190 @@ def orc_restriction(case):
 
 
 # =====================================================================================================
+# call sequences, untouched inputs, permutation relations; a new interpreter
+# =====================================================================================================
+def _theta_score(crit, X, theta, fit_name):
+    """spec score of a fitter's result (index for fit_select; the all-zero weights score 0 by the library's convention)"""
+    if fit_name == 'fit_select':
+        return crit.score(X[int(theta)])
+    theta = np.asarray(theta, dtype=float)
+    return crit.score(theta @ X) if np.any(theta != 0) else 0.0
+
+
+def _same(a, b):
+    a, b = np.asarray(a), np.asarray(b)
+    return a.shape == b.shape and a.dtype == b.dtype and bool(np.array_equal(a, b, equal_nan=a.dtype.kind == 'f'))
+
+
+@oracle('C08/sequence')
+def orc_sequence(case):
+    """What the optimality statement implies for SEQUENCES of calls: the fit is a function of its arguments (the same call
+    again returns the same parameters -- with numpy's generator seeded alike for the fitters that draw starting points --, also
+    after fits of other data of the same shape or of another model of the same shape; an earlier result is never better for
+    the later problem than the later result), the arguments are left as they were, results held by the caller are not
+    changed by later calls; and for PERMUTATIONS: listing the basis RDMs in the opposite order gives the weights in the
+    opposite order (closed forms; for the iterative fitters, the selection and the interpolation model: a result of the same
+    score), listing the training RDMs in another order changes nothing.  case['desc'] must not be 'cond' (labels independent
+    of the seed)."""
+    fit_name = case['fitter']
+    cls_name = _FITTER_MODEL[fit_name]
+    closed = fit_name in ('fit_regress', 'fit_regress_nn')
+    pbA = _problem(case)
+    pbB = _problem(dict(case, seed=case['seed'] + 1))       # same shapes, labels and selection, other content
+    if pbA['labels'] != pbB['labels'] or pbA['S'] != pbB['S']:
+        raise ValueError('the case must not draw its labels from the seed')
+    model, model2 = _model(cls_name, case, pbA), _model(cls_name, case, pbB)
+    dataA, dataB = _train(case, pbA), _train(case, pbB)
+    kw = _fit_kwargs(case, pbA)
+    via = case.get('via', 'direct')
+
+    def fit(mdl, dat, kw_=kw):
+        return _call_fit(fit_name, mdl, dat, kw_, via, case['seed'], 20)
+
+    def snapshot():
+        out = dict(model=np.array(model.rdm_obj.dissimilarities, copy=True), model_rdm=np.array(model.rdm, copy=True),
+                   data=np.array(dataA.dissimilarities, copy=True),
+                   model_desc={a: list(np.asarray(v).tolist()) for a, v in model.rdm_obj.pattern_descriptors.items()},
+                   data_desc={a: list(np.asarray(v).tolist()) for a, v in dataA.pattern_descriptors.items()})
+        if 'sigma_k' in kw:
+            out['sigma_k'] = np.array(kw['sigma_k'], copy=True)
+        if 'pattern_idx' in kw:
+            out['pattern_idx'] = (type(kw['pattern_idx']).__name__, list(np.asarray(kw['pattern_idx']).tolist()))
+        return out
+
+    def changed(before):
+        now = snapshot()
+        for a in before:
+            same = _same(before[a], now[a]) if isinstance(before[a], np.ndarray) else before[a] == now[a]
+            if not same:
+                return a
+        return None
+    before = snapshot()
+    th1 = fit(model, dataA)
+    held = np.array(th1, copy=True)
+    a = changed(before)
+    if a:
+        return f'{fit_name} changed its argument {a}'
+    th1b = fit(model, dataA)
+    if not _same(th1b, held):
+        return f'{fit_name}: the same call twice returned {_fmt(held)} and then {_fmt(th1b)}'
+    thB = fit(model, dataB)
+    thM = fit(model2, dataA)
+    if not _same(th1, held):
+        return (f'{fit_name}: the result held by the caller changed from {_fmt(held)} to {_fmt(th1)} when the fitter was called '
+                f'again with other data / another model')
+    th1c = fit(model, dataA)
+    if not _same(th1c, held):
+        return (f'{fit_name}: after fits of other data and of another model (same shapes) the first call returns {_fmt(th1c)} '
+                f'instead of {_fmt(held)}')
+    a = changed(before)
+    if a:
+        return f'{fit_name} changed its argument {a}'
+    method = case['method']
+    critA = _Crit(method, pbA['Y'], pbA['V'])
+    if fit_name != 'fit_optimize':
+        # (fit_optimize on arbitrary problems is the known finding F3 of the plain domain)
+        critB = _Crit(method, pbB['Y'], pbA['V'])           # the sigma_k of the call is the one of problem A
+        for what, crit, X, th_new in (('other training data', critB, pbA['X'], thB), ('another model', critA, pbB['X'], thM)):
+            s_new, s_old = _theta_score(crit, X, th_new, fit_name), _theta_score(crit, X, held, fit_name)
+            if not s_new >= s_old - TOL:
+                return (f'{fit_name}({method}) called with {what} of the same shape returned {_fmt(th_new)} (mean similarity '
+                        f'{s_new:.9f}); the result of the EARLIER call, {_fmt(held)}, reaches {s_old:.9f} there')
+    # ---- permutations ----
+    s1 = _theta_score(critA, pbA['X'], held, fit_name)
+    k = case['k']
+    if k > 1:
+        rev = dict(pbA, basis=pbA['basis'][::-1].copy())
+        th_r = fit(_model(cls_name, case, rev), dataA)
+        if closed:
+            if not close(np.asarray(th_r, dtype=float)[::-1], held, 1e-7):
+                return (f'{fit_name}({method}): with the basis RDMs listed in the opposite order the weights are {_fmt(th_r)}, '
+                        f'expected the reverse of {_fmt(held)}')
+        else:
+            back = k - 1 - int(th_r) if fit_name == 'fit_select' else np.asarray(th_r, dtype=float)[::-1]
+            s_r = _theta_score(critA, pbA['X'], back, fit_name)
+            if abs(s_r - s1) > TOL:
+                return (f'{fit_name}({method}): with the basis RDMs listed in the opposite order the result {_fmt(th_r)} reaches mean '
+                        f'similarity {s_r:.9f}, in the original order {_fmt(held)} reaches {s1:.9f}')
+    if case['n_train'] > 1:
+        from rsatoolbox.rdm import RDMs
+        data_r = RDMs(np.array(dataA.dissimilarities[::-1], copy=True),
+                      pattern_descriptors={'cond': list(dataA.pattern_descriptors['cond'])})
+        th_t = fit(model, data_r)
+        if closed:
+            ok = close(th_t, held, 1e-9)
+        else:
+            ok = abs(_theta_score(critA, pbA['X'], th_t, fit_name) - s1) <= TOL
+        if not ok:
+            return (f'{fit_name}({method}): with the training RDMs listed in the opposite order the result is {_fmt(th_t)} instead '
+                    f'of {_fmt(held)}')
+    return None
+
+
+def _xproc_child():
+    """child interpreter: fits and predictions of a string-labelled problem, printed with full precision"""
+    import json
+    import sys
+    import warnings
+    warnings.simplefilter('ignore')
+    case = json.loads(sys.argv[1])
+    print('XPROC ' + json.dumps(_xproc_battery(case)))
+
+
+def _xproc_battery(case):
+    from rsatoolbox.model import model_from_dict
+    out = {}
+    pb = _problem(case)
+    kw = _fit_kwargs(case, pb)
+    for fit_name, cls_name in _FITTER_MODEL.items():
+        if fit_name == 'fit_interpolate' and case['k'] < 2:
+            continue
+        model = _model(cls_name, case, pb)
+        try:
+            th = _call_fit(fit_name, model, _train(case, pb), kw, 'direct', case['seed'], 20)
+            out[fit_name] = [float(v).hex() for v in np.atleast_1d(np.asarray(th, dtype=float))]
+            arg = int(th) if fit_name == 'fit_select' else np.asarray(th)
+            rebuilt = model_from_dict(model.to_dict())
+            pr = rebuilt.predict_rdm(arg)
+            out[fit_name + '/prediction'] = [float(v).hex() for v in pr.dissimilarities[0]]
+            out[fit_name + '/descriptors'] = {a: [str(x) for x in np.asarray(v).tolist()] for a, v in pr.pattern_descriptors.items()}
+        except Exception as e:                                           # noqa: BLE001
+            out[fit_name] = f'EXC {type(e).__name__}: {str(e)[:80]}'
+    return out
+
+
+@oracle('C08/cross-process')
+def orc_cross_process(case):
+    """the fitted parameters and the predictions of the fitted (dictionary-rebuilt) models are functions of the inputs: new
+    interpreters started with other PYTHONHASHSEED values return bit for bit what this interpreter returns"""
+    import json
+    import os
+    import subprocess
+    import sys
+    sub = {a: v for a, v in case.items() if a != 'hash_seeds'}
+    here = _xproc_battery(sub)
+    root = os.path.dirname(os.path.dirname(os.path.abspath(__file__)))
+    procs = []
+    for hs in case['hash_seeds']:
+        env = dict(os.environ, PYTHONHASHSEED=str(hs), MPLBACKEND='Agg',
+                   PYTHONPATH=os.pathsep.join([q for q in sys.path if q]))
+        procs.append(subprocess.Popen([sys.executable, '-c', 'from contracts.C08_c import _xproc_child; _xproc_child()',
+                                       json.dumps(sub)], env=env, stdout=subprocess.PIPE, stderr=subprocess.PIPE, text=True,
+                                      cwd=root))
+    for hs, pr in zip(case['hash_seeds'], procs):
+        so, se = pr.communicate(timeout=600)
+        line = [ln for ln in so.splitlines() if ln.startswith('XPROC ')]
+        if not line:
+            raise RuntimeError('child interpreter failed: ' + (se or so)[-300:])
+        there = json.loads(line[-1][6:])
+        for a in here:
+            if there.get(a) != here[a]:
+                return (f'{a}: an interpreter started with PYTHONHASHSEED={hs} returns {str(there.get(a))[:200]}, this one '
+                        f'{str(here[a])[:200]}')
+    return None
+
+
+# =====================================================================================================
 # predictions
 # =====================================================================================================
 def _desc_equal(got, want):
@@ -639,23 +823,39 @@ def _desc_equal(got, want):
     return all(list(np.asarray(got[a]).tolist()) == list(np.asarray(want[a]).tolist()) for a in want)
 
 
-def _build_model(cls_name, ctor, vecs, n, labels, name='m'):
+def _build_model_arg(cls_name, ctor, vecs, n, labels, name='m', dtype=None):
+    """-> (model, the array / RDMs object it was built from)"""
     import rsatoolbox.model as M
     cls = getattr(M, cls_name)
     vecs = np.asarray(vecs, dtype=float)
     if cls_name == 'ModelFixed' and ctor != 'rdms':
         arg = vecs[0].copy() if ctor == 'vectors' else _mat_from_vec(vecs[0], n)
     elif ctor == 'rdms':
-        arg = _rdms(vecs.copy(), labels)
+        arg = _rdms(vecs.copy(), labels, dtype)
     elif ctor == 'vectors':
         arg = vecs.copy()
     else:
         arg = np.array([_mat_from_vec(v, n) for v in vecs])
-    return cls(name, arg)
+    if dtype is not None and isinstance(arg, np.ndarray):
+        arg = arg.astype(dtype)
+    return cls(name, arg), arg
+
+
+def _build_model(cls_name, ctor, vecs, n, labels, name='m'):
+    return _build_model_arg(cls_name, ctor, vecs, n, labels, name)[0]
+
+
+def _reordered(d):
+    """the same dictionary with the keys of every level in the opposite order"""
+    if isinstance(d, dict):
+        return {a: _reordered(d[a]) for a in reversed(list(d.keys()))}
+    return d
 
 
 @oracle('C08/predict')
 def orc_predict(case):
+    """optional keys of the dimension sweeps: dtype (whole-number basis RDMs handed over in that dtype), bscale (units of the
+    basis RDMs), labels='str' (string condition labels)"""
     from rsatoolbox.rdm import RDMs
     from rsatoolbox.model import model_from_dict
     rs = np.random.RandomState(case['seed'])
@@ -663,7 +863,18 @@ def orc_predict(case):
     nd = n * (n - 1) // 2
     vecs = 1.0 + np.arange(k * nd).reshape(k, nd) + rs.rand(k, nd)        # distinct sentinels
     labels = [10 + 3 * int(c) for c in rs.permutation(n)]
-    model = _build_model(cls_name, ctor, vecs, n, labels, name='model-%d' % case['seed'])
+    sweep = any(a in case for a in ('dtype', 'bscale', 'labels'))
+    if case.get('dtype'):
+        vecs = np.floor(vecs)                                             # distinct whole numbers 1 .. k * nd <= 60
+    unit = float(case.get('bscale', 1.0))                                 # comparisons are made in this unit
+    vecs = vecs * unit
+    if case.get('labels') == 'str':
+        labels = [_NAMES[(c - 10) // 3] for c in labels]
+
+    def cl(a, b, tol):
+        return close(np.asarray(a, dtype=float) / unit, np.asarray(b, dtype=float) / unit, tol)
+    model, ctor_arg = _build_model_arg(cls_name, ctor, vecs, n, labels, name='model-%d' % case['seed'], dtype=case.get('dtype'))
+    ctor_vals = np.array(ctor_arg.dissimilarities if isinstance(ctor_arg, RDMs) else ctor_arg, copy=True)
     want_desc = {'index': list(range(n))}
     if ctor == 'rdms':
         want_desc['cond'] = labels
@@ -697,9 +908,12 @@ def orc_predict(case):
         return f'model_from_dict(to_dict()) is a {type(rebuilt).__name__}, the model a {type(model).__name__}'
     if rebuilt.name != model.name:
         return f'model_from_dict(to_dict()) has name {rebuilt.name!r}, the model {model.name!r}'
+    # the order of the entries of the dictionary (e.g. after a round trip through a file) carries no information
+    shuffled = model_from_dict(_reordered(model.to_dict()))
     for th in thetas:
         tdesc = 'default theta' if th is None else f'theta={_fmt(th) if not isinstance(th, int) else th}'
-        for mname, m in (('model', model), ('model rebuilt from its dict', rebuilt)):
+        for mname, m in (('model', model), ('model rebuilt from its dict', rebuilt),
+                         ('model rebuilt from its dict with the entries in the opposite order', shuffled)):
             args = () if th is None else (th if isinstance(th, int) else np.array(th),)
             pv = np.asarray(m.predict(*args), dtype=float)
             pr = m.predict_rdm(*args)
@@ -710,31 +924,54 @@ def orc_predict(case):
             if pr.n_rdm != 1 or pr.dissimilarities.shape != (1, nd):
                 return (f'{mname}: predict_rdm({tdesc}) holds {pr.n_rdm} RDMs (shape {pr.dissimilarities.shape}) while predict '
                         f'returns one vector')
-            if not close(pr.dissimilarities[0], pv, 1e-12):
-                return (f'{mname}: predict and predict_rdm disagree for {tdesc}: predict[:3]={_fmt(pv[:3])}, '
-                        f'predict_rdm[:3]={_fmt(pr.dissimilarities[0][:3])}')
+            if not cl(pr.dissimilarities[0], pv, 1e-12):
+                return (f'{mname}: predict and predict_rdm disagree for {tdesc}: predict[:3]={_fmt(pv[:3] / unit)}, '
+                        f'predict_rdm[:3]={_fmt(pr.dissimilarities[0][:3] / unit)}' + (f' (in units of {unit:g})' if unit != 1 else ''))
             if not (cls_name == 'ModelInterpolate' and th is None):
                 want = spec(th)
-                if not close(pv, want, 1e-12):
-                    return f'{mname}: predict({tdesc})[:3]={_fmt(pv[:3])}, expected the weighted sum {_fmt(want[:3])}'
+                if not cl(pv, want, 1e-12):
+                    return (f'{mname}: predict({tdesc})[:3]={_fmt(pv[:3] / unit)}, expected the weighted sum {_fmt(want[:3] / unit)}'
+                            + (f' (in units of {unit:g})' if unit != 1 else ''))
             if not _desc_equal(pr.pattern_descriptors, want_desc):
                 return (f'{mname}: predict_rdm({tdesc}) carries pattern descriptors {dict(pr.pattern_descriptors)}, '
                         f'expected {want_desc}')
             if th is not None and not isinstance(th, int) and cls_name in ('ModelWeighted', 'ModelInterpolate'):
-                # same parameters given as a list
-                if not close(np.asarray(m.predict(list(th)), dtype=float), pv, 1e-12):
-                    return f'{mname}: predict differs between list and array {tdesc}'
+                # same parameters given as a list / as a tuple
+                for cont in (list, tuple):
+                    if not cl(np.asarray(m.predict(cont(th)), dtype=float), pv, 1e-12):
+                        return f'{mname}: predict differs between {cont.__name__} and array {tdesc}'
+                    if not cl(m.predict_rdm(cont(th)).dissimilarities[0], pv, 1e-12):
+                        return f'{mname}: predict_rdm differs between {cont.__name__} and array {tdesc}'
+            if isinstance(th, int):
+                # the index of a selection model as a numpy integer (what fit_select returns)
+                if not cl(np.asarray(m.predict(np.int64(th)), dtype=float), pv, 0) \
+                        or not cl(m.predict_rdm(np.int64(th)).dissimilarities[0], pv, 1e-12):
+                    return f'{mname}: predictions differ between theta={th} given as int and as numpy.int64'
+            if th is not None and not isinstance(th, int):
+                # the same call again gives the same numbers, and the caller's parameter array is left as it was
+                a = np.array(th)
+                keep = a.copy()
+                p1 = np.array(m.predict(a), dtype=float)
+                r1 = np.array(m.predict_rdm(a).dissimilarities[0], dtype=float)
+                if not np.array_equal(a, keep):
+                    return f'{mname}: predict / predict_rdm changed the parameter array they were given: {_fmt(keep)} -> {_fmt(a)}'
+                if not np.array_equal(p1, pv) or not np.array_equal(r1, np.asarray(pr.dissimilarities[0], dtype=float)):
+                    return f'{mname}: the same prediction call twice gave different numbers for {tdesc}'
     # predictions held by the caller stay what they were when the model predicts again with other parameters
     held = []
     for th in thetas:
         if th is None:
             continue
         args = (th if isinstance(th, int) else np.array(th),)
-        held.append((th, model.predict_rdm(*args), np.asarray(model.predict(*args), dtype=float).copy()))
-    for th, pr, pv in held:
-        if not close(pr.dissimilarities[0], pv, 1e-12):
+        pvh = model.predict(*args)
+        held.append((th, model.predict_rdm(*args), pvh, np.asarray(pvh, dtype=float).copy()))
+    for th, pr, pvh, pv in held:
+        if not cl(pr.dissimilarities[0], pv, 1e-12):
             return (f'the RDMs object returned by predict_rdm(theta={_fmt(th) if not isinstance(th, int) else th}) changed when the '
                     f'model predicted again with other parameters: now {_fmt(pr.dissimilarities[0][:3])}, was {_fmt(pv[:3])}')
+        if not np.array_equal(np.asarray(pvh, dtype=float), pv):
+            return (f'the vector returned by predict(theta={_fmt(th) if not isinstance(th, int) else th}) changed when the '
+                    f'model predicted again with other parameters: now {_fmt(np.asarray(pvh)[:3])}, was {_fmt(pv[:3])}')
     if cls_name in ('ModelWeighted', 'ModelInterpolate') and tk != 'default':
         t1, t2 = (rs.rand(k), rs.rand(k)) if tk in ('nonneg', 'convex') else (rs.randn(k), rs.randn(k))
         a, b = (0.25, 1.5) if tk in ('nonneg', 'convex') else (-0.75, 2.0)
@@ -742,9 +979,19 @@ def orc_predict(case):
                             ('predict_rdm', lambda t: model.predict_rdm(t).dissimilarities[0])):
             lhs = fn(a * t1 + b * t2)
             rhs = a * fn(t1) + b * fn(t2)
-            if not close(lhs, rhs, 1e-11):
+            if not cl(lhs, rhs, 1e-11):
                 return (f'{fn_name} is not linear in the weights: f({a}*t1+{b}*t2)[:3]={_fmt(lhs[:3])} but '
                         f'{a}*f(t1)+{b}*f(t2)[:3]={_fmt(rhs[:3])} (t1={_fmt(t1)}, t2={_fmt(t2)})')
+            if sweep and tk == 'signed':
+                # whole-number weights given as an integer array (with integer-typed basis RDMs nothing is a float)
+                ti = np.array([(-2, 3, 1, -1)[j % 4] for j in range(k)])
+                if not cl(fn(ti), fn(ti.astype(float)), 1e-12) or not cl(fn(ti), ti.astype(float) @ vecs, 1e-12):
+                    return (f'{fn_name} with the integer-typed weights {ti.tolist()}: [:3]={_fmt(fn(ti)[:3] / unit)}, with the same '
+                            f'weights as floats {_fmt(fn(ti.astype(float))[:3] / unit)}, expected {_fmt((ti.astype(float) @ vecs)[:3] / unit)}')
+    # the array / RDMs object the model was built from is left as it was
+    now = np.asarray(ctor_arg.dissimilarities if isinstance(ctor_arg, RDMs) else ctor_arg)
+    if now.dtype != ctor_vals.dtype or not np.array_equal(now, ctor_vals):
+        return 'predicting changed the array the model was built from'
     return None
 
 
@@ -884,21 +1131,32 @@ _GROUPS = {      # position -> group: values repeat, are interleaved, unbalanced
     7: [1, 3, 0, 3, 3, 1, 0],
     9: [4, 1, 1, 0, 4, 2, 4, 0, 4],
 }
-_GROUP_SELECTIONS = {6: [[0, 2], [2, 2, 1], [1, 0, 0]], 7: [[3, 0], [0, 1, 1, 3]], 9: [[4, 0, 2], [2, 1, 1, 0, 0]]}
+_GROUP_SELECTIONS = {6: [[0, 2], [2, 2, 1], [1, 0, 0, 2]], 7: [[3, 0], [0, 1, 1, 3]], 9: [[4, 0, 2], [2, 1, 1, 0, 0]]}
 _SCALES = (1e-20, 1e12, 1e-12, 1e6, 1e-6, 1e2)
 
-# Classes of the sweeps that FAIL on the unchanged tree (genuine defects, reported; see the docstring): not registered until
-# the main session has decided whether to repair or record them.
-_PENDING_TRIAGE = {}
+# Classes of the sweeps that FAIL on the unchanged tree (genuine defects, reported to the main session; mechanisms in the
+# module docstring): not registered until it has been decided whether they are repaired or recorded as known findings.
+_TINY_UNITS = tuple('units,%s-x%s' % (w, sc) for sc in ('1e-20', '1e-12') for w in ('basis', 'training', 'basis-and-training'))
+_PENDING_TRIAGE = {
+    # cg(..., atol=1e-9) in fit_regress / pool_rdm; integer overflow in the dtype of the input
+    'fit_regress': _TINY_UNITS + ('typed-data,uint8', 'typed-data,int16,values-to-111'),
+    # the same, the absolute threshold `np.max(w) > 100 * eps` of the active-set loop (tiny units: all-zero weights; large
+    # numbers: the loop never ends)
+    'fit_regress_nn': _TINY_UNITS + ('typed-data,uint8', 'typed-data,int16,values-to-111', 'units,basis-x1e+12',
+                                     'units,basis-and-training-x1e+12', 'units,basis-x1e+06', 'units,sigma_k-x1e-06'),
+}
+SWEEP_NOTE = ('; dimension sweeps on positive problems: whole numbers as int64/int32/int16/uint8/float32 arrays, units x1e-20 .. '
+              'x1e+12 of basis / training RDMs / sigma_k, pattern_idx as list/tuple/array, str labels, model built from plain '
+              'vectors, a descriptor with repeated interleaved values (groups), 1 basis RDM, 3 conditions, 10-12 conditions')
 
 
 def _sweep_cases(thorough, fit_name):
     """-> list of (input class, case) along the dimensions the plain domains do not vary.  Every problem is a positive
     mixture / random problem (whole numbers need non-negative RDMs); for fit_optimize only problems whose unconstrained
     maximiser is non-negative and for fit_interpolate only chains whose best mixture lies inside a segment are used (the other
-    classes are known findings F3 / F6 of the plain domains and would only repeat them under another name)."""
+    classes are known findings F3 / F6 of the plain domains and would only repeat them under another name).  The quick list is
+    a sub-list of the thorough one (one method per problem instead of four; two for the iterative fitters)."""
     slow = fit_name.startswith('fit_optimize')
-    few = slow or fit_name == 'fit_interpolate'
     out = []
     count = [0]
 
@@ -907,12 +1165,12 @@ def _sweep_cases(thorough, fit_name):
         count[0] += 1
         if 'method' in kw:
             methods = (kw.pop('method'),)
-        elif thorough and not slow:
-            methods = METHODS
-        elif few:
+        elif not thorough:
             methods = (METHODS[i % 4],)
+        elif slow:
+            methods = (METHODS[i % 4], METHODS[(i + 2) % 4])
         else:
-            methods = (METHODS[i % 4], METHODS[(i + 2 + i // 4 % 2) % 4])
+            methods = METHODS[i % 4:] + METHODS[:i % 4]
         for method in methods:
             case = dict(seed=8000 + 13 * i, k=(2, 3)[i % 2], n_all=(6, 5)[(i // 2) % 2], pidx=None, desc='index',
                         kind=('posmix', 'random')[(i // 3) % 2] if not slow else 'posmix', method=method,
@@ -930,23 +1188,19 @@ def _sweep_cases(thorough, fit_name):
     # ---- typed data: whole numbers handed over as int64 / int32 / int16 / uint8 / float32 arrays
     for dt in _DTYPES:
         add('typed-data,' + dt, dtype=dt)
-        if not few or thorough:
-            add('typed-data,' + dt, dtype=dt, pidx=[3, 0, 1, 4])                       # subset, no repeats
-            add('typed-data,' + dt, dtype=dt, pidx=[0, 1, 1, 3, 4], ctor='vectors')    # repeats: the training data hold NaN
+        add('typed-data,' + dt, dtype=dt, pidx=[3, 0, 1, 4])                       # subset, no repeats
+        add('typed-data,' + dt, dtype=dt, pidx=[0, 1, 1, 3, 4], ctor='vectors')    # repeats: the training data hold NaN
+    add('typed-data,int16,values-to-111', dtype='int16', vmax=110, method='cosine')
+    add('typed-data,int16,values-to-111', dtype='int16', vmax=110, pidx=[3, 0, 1, 4], method='cosine')
     # ---- units: the same problem in units in which the numbers are tiny or huge (every criterion is invariant)
-    for j, sc in enumerate(_SCALES):
-        if few and not thorough and j >= 2:
-            break
+    for sc in _SCALES:
         add('units,basis-x%g' % sc, bscale=sc)
         add('units,training-x%g' % sc, tscale=sc)
-        if not few or thorough:
-            add('units,basis-x%g' % sc, bscale=sc, pidx=[0, 1, 1, 3, 4])
-            add('units,training-x%g' % sc, tscale=sc, n_train=3)
-            add('units,basis-and-training-x%g' % sc, bscale=sc, tscale=sc)
-    if not slow:
+        add('units,basis-x%g' % sc, bscale=sc, pidx=[0, 1, 1, 3, 4])
+        add('units,training-x%g' % sc, tscale=sc, n_train=3)
+        add('units,basis-and-training-x%g' % sc, bscale=sc, tscale=sc)
+    if not slow:     # (the iterative fitters with a given sigma_k are the known findings F4 / F5)
         for j, sc in enumerate((1e-12, 1e12, 1e-6, 1e6)):
-            if few and not thorough and j >= 2:
-                break
             for method in ('cosine_cov', 'corr_cov'):
                 add('units,sigma_k-x%g' % sc, sscale=sc, sigma=('full', 'diag')[j % 2], method=method, n_train=(1, 3)[j % 2])
     # ---- containers and label types
@@ -957,40 +1211,94 @@ def _sweep_cases(thorough, fit_name):
     add('containers,model-from-vectors', ctor='vectors')
     add('containers,model-from-vectors', ctor='vectors', pidx=[4, 4, 2, 0, 1, 2], pidx_as=('array', 'list')[count[0] % 2])
     # ---- a pattern descriptor whose values repeat (groups of conditions): interleaved, unbalanced, unsorted first appearance
-    for n_all in ((6, 7, 9) if thorough else (6, 7)):
+    for n_all in (6, 7):
         for j, sel in enumerate(_GROUP_SELECTIONS[n_all]):
-            if few and not thorough and j:
-                continue
             add('grouped-descriptor', n_all=n_all, desc='group', groups=_GROUPS[n_all], pidx=sel,
                 labels=('int', 'str')[(j + n_all) % 2], pidx_as=('array', 'list', 'tuple')[(j + n_all) % 3])
     # ---- sizes
     if _FITTER_MODEL[fit_name] != 'ModelInterpolate':
         add('sizes,single-basis-rdm', k=1, size='k=1')
-        if not few or thorough:
-            add('sizes,single-basis-rdm', k=1, size='k=1', pidx=[0, 0, 2, 3, 4], n_all=5)
+        add('sizes,single-basis-rdm', k=1, size='k=1', pidx=[0, 0, 2, 3, 4], n_all=5)
     add('sizes,3-conditions', n_all=3, k=2, size='n=3')
-    if not few or thorough:
-        add('sizes,3-conditions', n_all=5, k=2, pidx=[4, 0, 2], size='n=3')
-        add('sizes,3-conditions', n_all=4, k=2, pidx=[3, 1, 1, 0], size='n=3+1')
-    if thorough or not few:
-        add('sizes,10-12-conditions', n_all=10, k=(4 if slow else 5), n_train=5, size='n=10')
+    add('sizes,3-conditions', n_all=5, k=2, pidx=[4, 0, 2], size='n=3')
+    add('sizes,3-conditions', n_all=4, k=2, pidx=[3, 1, 1, 0], size='n=3+1')
+    add('sizes,10-12-conditions', n_all=10, k=(4 if slow else 5), n_train=5, size='n=10')
     if thorough:
         add('sizes,10-12-conditions', n_all=12, k=4, pidx=[11, 0, 3, 3, 5, 1, 6, 6, 9, 10, 2], n_train=5, size='n=12')
         add('sizes,10-12-conditions', n_all=12, k=(3 if slow else 6), n_train=2, size='n=12', desc='cond')
+        for j, sel in enumerate(_GROUP_SELECTIONS[9]):
+            add('grouped-descriptor', n_all=9, desc='group', groups=_GROUPS[9], pidx=sel, labels=('str', 'int')[j],
+                pidx_as=('tuple', 'array')[j])
     return out
 
 
 def _run_sweeps(bd, orc, fit_name, thorough, function=None):
     pending = _PENDING_TRIAGE.get(fit_name, ())
-    n = 0
     for ic, case in _sweep_cases(thorough, fit_name):
-        if any(ic == q or ic.startswith(q + ',') or (q.endswith('*') and ic.startswith(q[:-1])) for q in pending):
+        if ic in pending:
             if False:  # pending triage: the classes listed in _PENDING_TRIAGE (genuine defects on the unchanged tree)
                 bd.check(orc, case, ic, function=function or fit_name)
             continue
         bd.check(orc, case, ic, function=function or fit_name)
-        n += 1
-    return n
+
+
+def _sequence_cases(thorough, fit_name):
+    slow = fit_name.startswith('fit_optimize')
+    variants = [dict(), dict(pidx=[0, 1, 1, 3, 4, 4]),
+                dict(desc='group', groups=_GROUPS[6], pidx=[2, 2, 1], labels='str', pidx_as='list'),
+                dict(ctor='vectors', pidx=[5, 2, 0, 3, 1], pidx_as='tuple'), dict(dtype='float32'), dict(sigma='full'),
+                dict(sigma='diag', pidx=[0, 0, 2, 3, 4, 5], n_train=1), dict(k=1, size='k=1')]
+    out = []
+    for i, v in enumerate(variants):
+        if (slow and v.get('sigma')) or (fit_name == 'fit_interpolate' and v.get('k') == 1):
+            continue
+        if slow and not thorough and i not in (1, 2, 4):
+            continue
+        for j, method in enumerate(METHODS):
+            if v.get('sigma') and not method.endswith('_cov'):
+                continue
+            if not thorough and not v.get('sigma') and (i + j) % 2:
+                continue
+            if slow and (i + j) % (2 if thorough else 4):
+                continue
+            for seed in range(2 if thorough and not slow else 1):
+                case = dict(seed=600 + 50 * seed + i, fitter=fit_name, k=(3, 2)[i % 2], n_all=6, pidx=None, desc='index', kind='posmix',
+                            method=method, n_train=(3, 4, 1)[i % 3] if i % 3 != 2 or v else 3, sigma='none',
+                            via=('direct', 'Fitter')[(i + j) % 2] if _FITTER_MODEL[fit_name] == 'ModelWeighted' else 'direct')
+                case.update(v)
+                for _ in range(6):
+                    if fit_name == 'fit_optimize' and _optimum_sign_class(case) != 'optimum-nonnegative':
+                        case['seed'] += 1000
+                    elif fit_name == 'fit_interpolate' and _interp_optimum_kind(case) != 'optimum-inside-segment':
+                        case['seed'] += 1000
+                    else:
+                        out.append(case)
+                        break
+    return out
+
+
+def _restriction_sweeps(thorough, fit_name):
+    slow = fit_name.startswith('fit_optimize')
+    variants = [('grouped-descriptor', dict(desc='group', groups=_GROUPS[6], pidx=[2, 2, 1])),
+                ('grouped-descriptor', dict(desc='group', n_all=7, groups=_GROUPS[7], pidx=[0, 1, 1, 3], labels='str', pidx_as='list')),
+                ('containers', dict(desc='cond', labels='str', pidx=[3, 0, 1, 1, 4], pidx_as='tuple')),
+                ('containers', dict(pidx=[5, 2, 0, 3], pidx_as='list')),
+                ('sizes,3-conditions', dict(n_all=5, pidx=[4, 0, 2], size='n=3')),
+                ('units', dict(bscale=1e6, tscale=1e-6, pidx=[5, 2, 0, 3, 1]))]
+    out = []
+    for i, (ic, v) in enumerate(variants):
+        if ic == 'units' and fit_name == 'fit_regress_nn':
+            continue        # (large numbers: the fitter does not return -- pending triage, see _PENDING_TRIAGE)
+        for j, method in enumerate(METHODS):
+            if (j - i) % 4 and (not thorough or (slow and (j - i) % 2)):
+                continue
+            case = dict(seed=760 + i, fitter=fit_name, k=2 + (i + j) % 2, n_all=6, pidx=None, desc='index',
+                        kind='posmix' if slow else ('random', 'posmix')[i % 2], method=method, n_train=(1, 3)[i % 2], sigma='none')
+            case.update(v)
+            if ic == 'sizes,3-conditions':
+                case['k'] = 2
+            out.append((ic, case))
+    return out
 
 
 def tier_c(run, thorough):
